@@ -3,6 +3,7 @@ package main
 import (
 	"errors"
 	"fmt"
+	"strconv"
 	"time"
 
 	"go.lstv.dev/util/date"
@@ -315,6 +316,109 @@ func runC07(c *rt.Ctx) {
 			w.ClassN("addduration-rows", 1)
 		}
 	})
+
+	// dates outside 0000-9999 ("for any two dates"): BCE years, five- to nine-digit years. The same
+	// monitors, on every day of the years -1300..-1 and 10000..10400 and on a boundary set of far years.
+	{
+		sweeps := [][2]int64{{ref.Ordinal(-1300, 1, 1), ref.Ordinal(0, 1, 2)}, {ref.Ordinal(9999, 12, 30), ref.Ordinal(10400, 12, 31)}}
+		for _, sw := range sweeps {
+			sw := sw
+			c.Parallel("adjacent-outside-0000-9999", 0, func(w *rt.W) {
+				n := sw[1] - sw[0] + 1
+				lo := sw[0] + n*int64(w.Shard)/int64(w.NShards)
+				hi := sw[0] + n*int64(w.Shard+1)/int64(w.NShards)
+				for o := lo; o < hi; o++ {
+					c07Pair(w, o, o)
+					c07Pair(w, o, o+1)
+					c07Pair(w, o+1, o)
+					for _, k := range []int64{28, 29, 31, 365, 366, 372, 1461, 36524, 36525, 106751} {
+						c07Pair(w, o+k, o)
+						c07Pair(w, o-k, o)
+					}
+					c07Time(w, o)
+					c07Add(w, o, 0, 0, 1)
+					c07Add(w, o, 0, 0, -1)
+					c07Add(w, o, 0, 1, 0)
+					c07Add(w, o, -1, 0, 0)
+					c07AddDuration(w, o, 24*time.Hour)
+					c07AddDuration(w, o, -1)
+					w.ClassN("day-outside-0000-9999", 1)
+				}
+				w.NT(hi - lo)
+			})
+		}
+		c.Require("day-outside-0000-9999", 600000)
+		var F []int64
+		for _, y := range []int64{-999999999, -268435457, -5000000, -131073, -100000, -10000, -9999, -4001, -4000, -2001, -2000, -1601, -1600, -801, -800, -401, -400, -399, -301, -300, -201, -200, -101, -100, -99, -5, -4, -3, -1,
+			10000, 10001, 32767, 32768, 65535, 65536, 100000, 102500, 131071, 131072, 4194303, 4194304, 5000000, 268435456, 999999999} {
+			for m := 1; m <= 12; m++ {
+				F = append(F, ref.Ordinal(y, m, 1), ref.Ordinal(y, m, ref.DaysIn(y, m)))
+			}
+			F = append(F, ref.Ordinal(y, 2, 28), ref.Ordinal(y, 8, 20), ref.Ordinal(y, 8, 27))
+		}
+		c.Extra("far_boundary_set_size", len(F))
+		c.Parallel("far-boundary-pairs", 0, func(w *rt.W) {
+			for i := w.Shard; i < len(F); i += w.NShards {
+				for _, ob := range F {
+					c07Pair(w, F[i], ob)
+				}
+				for _, k := range []int64{1, 2, 27, 28, 29, 30, 31, 59, 60, 365, 366, 372, 373, 730, 1461, 36524, 36525, 106750, 106751, 106752} {
+					c07Pair(w, F[i]+k, F[i])
+					c07Pair(w, F[i], F[i]+k)
+					c07Pair(w, F[i]-k, F[i])
+				}
+				c07Time(w, F[i])
+				for _, ys := range []int{-400, -1, 0, 1, 4} {
+					for ms := -14; ms <= 14; ms++ {
+						for _, ds := range []int{-366, -31, -1, 0, 1, 29, 31, 365} {
+							c07Add(w, F[i], ys, ms, ds)
+						}
+					}
+				}
+				for _, k := range []int{-106751, -36525, -366, -1, 0, 1, 365, 36524, 106751} {
+					c07AddDuration(w, F[i], time.Duration(k)*24*time.Hour)
+					c07AddDuration(w, F[i], time.Duration(k)*24*time.Hour+time.Duration(k%3-1))
+				}
+				w.NT(int64(len(F)))
+				w.ClassN("far-boundary-rows", 1)
+			}
+		})
+		c.Require("far-boundary-rows", 1000)
+
+		// arguments far larger than a calendar unit: day numbers turned into dates (Add(0, 0, n)), month and year counts
+		// of the same magnitude, alone and mixed. Values beyond the platform's int are skipped.
+		big := []int64{106750, 106751, 106752, 106753, 110000, 146096, 146097, 146098, 292194, 365242, 730485, 737999, 1000000, 3652424, 3652425, 36524250, 2147483647}
+		fits := func(v int64) bool { return strconv.IntSize == 64 || (v >= -2147483648 && v <= 2147483647) }
+		bases := append([]int64{}, F...)
+		for i := 0; i < len(B); i += 9 {
+			bases = append(bases, B[i])
+		}
+		c.Parallel("add-large-arguments", 0, func(w *rt.W) {
+			for i := w.Shard; i < len(bases); i += w.NShards {
+				for _, v := range big {
+					for _, sg := range []int64{1, -1} {
+						n := v * sg
+						if !fits(n) {
+							continue
+						}
+						c07Add(w, bases[i], 0, 0, int(n))
+						c07Add(w, bases[i], 1, 0, int(n))
+						c07Add(w, bases[i], 0, 1, int(n))
+						c07Add(w, bases[i], 0, -1, int(n))
+						if v <= 36524250 {
+							c07Add(w, bases[i], 0, int(n), 0)
+							c07Add(w, bases[i], 0, int(n), 31)
+							c07Add(w, bases[i], int(n), 0, 0)
+							c07Add(w, bases[i], int(n), 1, -1)
+						}
+					}
+				}
+				w.NT(int64(len(big)))
+				w.ClassN("add-large-argument-rows", 1)
+			}
+		})
+		c.Require("add-large-argument-rows", 1000)
+	}
 
 	c.Parallel("fromtime", 0, func(w *rt.W) {
 		for i := w.Shard; i < len(B); i += w.NShards {
